@@ -1,5 +1,6 @@
 import GwbVerif.Properties.C07
 import GwbVerif.Properties.C07Depth
+import GwbVerif.Properties.C07Box
 open Gwb
 #print axioms C07_cull_pretest_only
 #print axioms C07_no_member_discarded
@@ -9,6 +10,19 @@ open Gwb
 #print axioms C07_local_le_maxima
 #print axioms C07_depth_cutoff_sound_partial
 #print C07_depth_cutoff_sound_full
+#print axioms C07_box_piece_invariant
+#print axioms C07_box_walk_bound
+#print axioms C07_box_frame
+#print axioms C07_bezier_hull
+#print axioms C07_bezier_bulge
+#print axioms C07_ctrl_near
+#print axioms C07_bbox_core
+#print axioms C07_bbox_cutoff_sound_partial
+#print axioms C07_bbox_cutoff_sound_closest
+#print C07_bbox_cutoff_sound_old_geom
+#print axioms C07_bbox_cutoff_sound_old_false
+#print axioms C07_bbox_old_discards_member
+#print C07_bbox_cutoff_sound_full
 #check @C07_cull_pretest_only
 #check @C07_no_member_discarded
 #check @C07_cull_equiv
@@ -16,3 +30,14 @@ open Gwb
 #check @C07_depth_walk_bound
 #check @C07_local_le_maxima
 #check @C07_depth_cutoff_sound_partial
+#check @C07_box_piece_invariant
+#check @C07_box_walk_bound
+#check @C07_box_frame
+#check @C07_bezier_hull
+#check @C07_bezier_bulge
+#check @C07_ctrl_near
+#check @C07_bbox_core
+#check @C07_bbox_cutoff_sound_partial
+#check @C07_bbox_cutoff_sound_closest
+#check @C07_bbox_cutoff_sound_old_false
+#check @C07_bbox_old_discards_member
